@@ -261,6 +261,9 @@ RULE = ("Kani harnesses with Expr::eval_rec replaced by a logging oracle: (a) th
 
 
 def check(run, only=None):
+    from .. import e3
+    e3.run_parts(run, ['dispatcher'], only=only)
+    run.notes.append('E3 (MIR symbolic execution): one level of the real dispatcher for every node kind incl. and / or, lists, maps, calls (node_* obligations)')
     from .. import arms
     hs = gen(run, run.tier)
     apre, ahs = arms.gen(run, run.tier, run.seed)
@@ -298,6 +301,10 @@ def check(run, only=None):
 
 
 def replay(run, path):
+    import json as _json
+    if _json.load(open(path)).get("replay", {}).get("engine") == "e3":
+        from ..e3replay import replay_file as _rf
+        return _rf(run, path)
     from ..replay import replay_file
     from .. import arms
     apre, ahs = arms.gen(run, "thorough", 0)
